@@ -239,7 +239,8 @@ def gen_case(rng, tier, g):
         for _ in range(rng.choice([1, 1, 2])):
             steps.insert(rng.randint(0, len(steps)), ['CLEARCACHE', 0, 0])
     return {'prop': PROP, 'machine': 'cache', 'view': rng.choice(
-        ['cache', 'cache', 'cache', 'wrap']), 'n': n, 'table': table,
+        ['cache', 'cache', 'cache', 'wrap', 'wrap-of-cache']), 'n': n,
+        'table': table,
         'steps': steps, 'shape': shape}
 
 
@@ -659,9 +660,15 @@ def _run_timing(e, case, log):
 def _run_cache(e, case, log):
     from petl.util.materialise import cache as pcache
     rows = dec_table(case['table'])
-    src = SimTable([list(r) for r in rows], mode='alias')
+    tbl = [list(r) for r in rows]
+    src = SimTable(tbl, mode='alias')
+    inner = None
     if case['view'] == 'cache':
         view = pcache(e.wrap(src), n=case['n'])
+    elif case['view'] == 'wrap-of-cache':
+        # the table that wrap() wraps is a cache view
+        inner = pcache(e.wrap(src), n=case['n'])
+        view = e.wrap(inner)
     else:
         view = e.wrap(src)
     want = canon_rows(rows)
@@ -670,6 +677,19 @@ def _run_cache(e, case, log):
         sch.run(case['steps'])
         sch.fresh(0)
         sch.fresh(0, label='fresh-again')
+        if inner is not None:
+            # the source goes on changing; what the cache view yields now
+            # (remembered rows, or fresh ones) is what the wrapper yields
+            tbl.append(['appended'] * max(len(tbl[0]) if tbl else 1, 1))
+            a = [canon_row(r) for r in iter(inner)]
+            b = [canon_row(r) for r in iter(view)]
+            c = [canon_row(r) for r in iter(inner)]
+            log.add('after-edit', a, b)
+            if not (a == b == c):
+                raise _Bad('rows-differ', 'wrap(cache(t, n=%r)) after the '
+                           'source changed: the cache view yields %r, the '
+                           'wrapper %r, the cache view again %r'
+                           % (case['n'], a, b, c))
     finally:
         overlap = sch.overlap
         nsteps = sch.nsteps
